@@ -639,6 +639,39 @@ func pathDependence() []*Scenario {
 	return scs
 }
 
+// streamAndInPlace: YAML streams and callbacks that edit in place: every document of a stream is
+// covered by a path; a Custom callback that changes the received map and hands it back has changed
+// the value.
+func streamAndInPlace() []*Scenario {
+	var scs []*Scenario
+	// YAML streams and callbacks that edit in place: every document of a stream is covered by a path;
+	// a Custom callback that changes the received map and hands it back has changed the value
+	for i, hc := range []struct {
+		api, doc string
+		ms       []*Matcher
+		text     string
+		docjson  string
+	}{
+		{"yaml", "ts: 1\nid: a\n---\nts: 2\nid: b\n", []*Matcher{{M: "any", Paths: []string{"$.ts"}}}, "ts: <Any value>\nid: a\n---\nts: <Any value>\nid: b\n", ""},
+		{"yaml", "ts: 1\nid: a\n---\nid: b\nts: 2\n---\nts: 3\n", []*Matcher{{M: "any", Paths: []string{"$.ts"}}}, "ts: <Any value>\nid: a\n---\nid: b\nts: <Any value>\n---\nts: <Any value>\n", ""},
+		{"json", `{"user":{"name":"n","secret":"s3cr3t"},"b":1}`, []*Matcher{{M: "custom", Paths: []string{"user"}, Ret: json.RawMessage(`"@mask:secret"`)}}, "", `{"user":{"name":"n","secret":"***"},"b":1}`},
+		{"sjson", `{"user":{"name":"n","secret":"s3cr3t"},"b":1}`, []*Matcher{{M: "custom", Paths: []string{"user"}, Ret: json.RawMessage(`"@mask:secret"`)}}, "", `{"user":{"name":"n","secret":"***"},"b":1}`},
+		{"yaml", "user:\n  name: n\n  secret: s3cr3t\nb: 1\n", []*Matcher{{M: "custom", Paths: []string{"$.user"}, Ret: json.RawMessage(`"@mask:secret"`)}}, "user:\n  name: \"n\"\n  secret: \"***\"\nb: 1\n", ""},
+	} {
+		sc := &Scenario{ID: fmt.Sprintf("st%d", i), Configs: stdConfigs(), Program: []string{"TestA"}, Tags: []string{"also:C15", "also:C16"}}
+		x := &Expect{VID: fmt.Sprintf("st:%d", i), Inj: true, Doc: hc.docjson}
+		if hc.text != "" {
+			t := hc.text
+			x = &Expect{Text: &t}
+		}
+		sc.Procs = append(sc.Procs, &Proc{Spec: procSpec("default"), Steps: []*Step{{Op: "begin", Name: "TestA"},
+			{Op: "match", Name: "TestA", API: hc.api, Cfg: "c", Val: bytesVal(hc.doc), Matchers: hc.ms, X: x}, {Op: "end", Name: "TestA"}}})
+		sc.Note = fmt.Sprintf("%s on %q with %d matcher(s): stream / in-place callback", hc.api, hc.doc, len(hc.ms))
+		scs = append(scs, sc)
+	}
+	return scs
+}
+
 // docsEntryPoints: every case through MatchJSON / MatchStandaloneJSON / MatchYAML with []byte
 // input (the event carries the caller's buffer afterwards), then a valid plain call that must
 // keep its slot.
@@ -663,29 +696,7 @@ func (c *CheckCtx) docsEntryPoints(cases []*docCase, prop string) error {
 		scs = append(scs, sc)
 		c.nontrivial(sc.Note)
 	}
-	// YAML streams and callbacks that edit in place: every document of a stream is covered by a path;
-	// a Custom callback that changes the received map and hands it back has changed the value
-	for i, hc := range []struct {
-		api, doc string
-		ms       []*Matcher
-		text     string
-		docjson  string
-	}{
-		{"yaml", "ts: 1\nid: a\n---\nts: 2\nid: b\n", []*Matcher{{M: "any", Paths: []string{"$.ts"}}}, "ts: <Any value>\nid: a\n---\nts: <Any value>\nid: b\n", ""},
-		{"yaml", "ts: 1\nid: a\n---\nid: b\nts: 2\n---\nts: 3\n", []*Matcher{{M: "any", Paths: []string{"$.ts"}}}, "ts: <Any value>\nid: a\n---\nid: b\nts: <Any value>\n---\nts: <Any value>\n", ""},
-		{"json", `{"user":{"name":"n","secret":"s3cr3t"},"b":1}`, []*Matcher{{M: "custom", Paths: []string{"user"}, Ret: json.RawMessage(`"@mask:secret"`)}}, "", `{"user":{"name":"n","secret":"***"},"b":1}`},
-		{"sjson", `{"user":{"name":"n","secret":"s3cr3t"},"b":1}`, []*Matcher{{M: "custom", Paths: []string{"user"}, Ret: json.RawMessage(`"@mask:secret"`)}}, "", `{"user":{"name":"n","secret":"***"},"b":1}`},
-		{"yaml", "user:\n  name: n\n  secret: s3cr3t\nb: 1\n", []*Matcher{{M: "custom", Paths: []string{"$.user"}, Ret: json.RawMessage(`"@mask:secret"`)}}, "user:\n  name: \"n\"\n  secret: \"***\"\nb: 1\n", ""},
-	} {
-		sc := &Scenario{ID: fmt.Sprintf("st%d", i), Configs: stdConfigs(), Program: []string{"TestA"}, Tags: []string{"also:C15", "also:C16"}}
-		x := &Expect{VID: fmt.Sprintf("st:%d", i), Inj: true, Doc: hc.docjson}
-		if hc.text != "" {
-			t := hc.text
-			x = &Expect{Text: &t}
-		}
-		sc.Procs = append(sc.Procs, &Proc{Spec: procSpec("default"), Steps: []*Step{{Op: "begin", Name: "TestA"},
-			{Op: "match", Name: "TestA", API: hc.api, Cfg: "c", Val: bytesVal(hc.doc), Matchers: hc.ms, X: x}, {Op: "end", Name: "TestA"}}})
-		sc.Note = fmt.Sprintf("%s on %q with %d matcher(s): stream / in-place callback", hc.api, hc.doc, len(hc.ms))
+	for _, sc := range streamAndInPlace() {
 		scs = append(scs, sc)
 		c.nontrivial(sc.Note)
 	}
@@ -923,6 +934,10 @@ func checkC16(c *CheckCtx) error {
 	for _, h := range hugeDoc() {
 		h.Tags = append(h.Tags, "also:C16")
 		scs = append(scs, h)
+	}
+	for _, sc := range streamAndInPlace() {
+		scs = append(scs, sc) // what a path covers in a stream decides what is masked (tagged also:C16)
+		c.nontrivial(sc.Note)
 	}
 	return c.runSeq(scs)
 }
